@@ -23,7 +23,8 @@ IndexPool == << [k |-> "f", name |-> S("a")], [k |-> "f", name |-> S("A")], [k |
 
 SeqToSet(s) == {s[i] : i \in 1..Len(s)}
 \* Prop = "C12": only the date / time / duration cells (replayed under a non-UTC local time zone)
-TimeKinds1 == {"datetime", "duration", "year", "month", "week", "day", "hour", "minute", "second"}
+\* (and the casts of text: an outcome must not depend on what the same thread evaluated before)
+TimeKinds1 == {"datetime", "duration", "year", "month", "week", "day", "hour", "minute", "second", "int", "float", "dec"}
 Kinds1 == IF Prop = "C12" THEN TimeKinds1 ELSE SeqToSet(UnaryKinds) \cup {"if"}
 Kinds2 == IF Prop = "C12" THEN {"add", "sub", "gt", "eq"} ELSE SeqToSet(StrictBinaryKinds) \cup SeqToSet(LazyBinaryKinds) \cup {"index"}
 
